@@ -43,10 +43,13 @@ IsDict(v) == v.k = "D"
 \* keys = the missing component and the ones below it: an implementation that keeps an empty
 \* nested dictionary (as lena.context.intersection may) reports a deeper component
 Range(s) == {s[j] : j \in 1..Len(s)}
+\* A component that is present but holds a plain value where a dictionary is needed ("kd.ke" when
+\* the prefix set kd = 1) cannot be resolved either: that component is the one reported.
 RECURSIVE Get(_, _)
 Get(c, path) ==
   IF path = <<>> THEN [ok |-> TRUE, v |-> c, key |-> "", keys |-> {}]
-  ELSE IF IsDict(c) /\ Head(path) \in DOMAIN c.m THEN Get(c.m[Head(path)], Tail(path))
+  ELSE IF IsDict(c) /\ Head(path) \in DOMAIN c.m /\ (Len(path) = 1 \/ IsDict(c.m[Head(path)]))
+       THEN Get(c.m[Head(path)], Tail(path))
   ELSE [ok |-> FALSE, v |-> Empty, key |-> Head(path), keys |-> Range(path)]
 
 (***************************************************************************)
@@ -206,69 +209,88 @@ NameOf(E, i, in) == IF in.err THEN [free |-> TRUE, ok |-> FALSE, s |-> <<>>]
                          [free |-> FALSE, ok |-> r.ok, s |-> r.s]
 
 (***************************************************************************)
-(* Run-time: two values (0, {"rt": 0}), (0, {"rt": 1}) enter; contexts of the values that leave.  *)
+(* Run-time: the values R.in (by default (0, {"rt": 0}), (0, {"rt": 1}))   *)
+(* enter; contexts of the values that leave.                               *)
 (* seen[i] = static context element i holds (for ucfs and mf).             *)
 (* UpdateContextFromStatic merges its static context into the run-time     *)
-(* one; MakeFilename formats with static context overridden (top level) by *)
-(* the run-time context and sets output.filename unless present; every     *)
+(* one; MakeFilename formats with static context overridden by the         *)
+(* run-time context and sets output.filename unless present; every         *)
 (* other element leaves contexts alone.  A Split gives every branch the    *)
 (* incoming values; a Source branch makes its own value; a bare            *)
 (* accumulator yields one value with the last context it was filled with.  *)
+(*                                                                         *)
+(* The run-time context of a value may carry keys that are static keys as  *)
+(* well (R.in is a parameter).  "The run-time context has higher           *)
+(* precedence" (MakeFilename docstring) leaves open how a nested run-time  *)
+(* dictionary combines with a nested static one:                           *)
+(*   R.mrg = "top"  the run-time item replaces the static item             *)
+(*   R.mrg = "rec"  nested dictionaries are merged, run-time leaves win    *)
+(* Whatever the reading, the merged dictionary is a value of its own: what *)
+(* the element holds (seen) is the same for every value and every run.     *)
 (***************************************************************************)
 OverTop(s, rc) == Dict([key \in DOMAIN s.m \cup DOMAIN rc.m |->
                           IF key \in DOMAIN rc.m THEN rc.m[key] ELSE s.m[key]])
+Merges == {"top", "rec"}
+Over(mrg, s, rc) == IF mrg = "top" THEN OverTop(s, rc) ELSE UpdRec(s, rc)
 \* MakeFilename(filename=..) / (dirname=..) / (fileext=..): kinds mf / mfd / mfe
 IsMF(k) == k \in {"mf", "mfd", "mfe"}
 OutField(k) == CASE k = "mfd" -> "dirname" [] k = "mfe" -> "fileext" [] OTHER -> "filename"
-MFStep(k, tpl, s, rc) ==
+MFStepM(mrg, k, tpl, s, rc) ==
   IF Get(rc, <<"output", OutField(k)>>).ok THEN rc
-  ELSE LET r == Fmt(tpl.toks, OverTop(s, rc)) IN
+  ELSE LET r == Fmt(tpl.toks, Over(mrg, s, rc)) IN
        IF r.ok THEN Put(rc, <<"output", OutField(k)>>, Leaf("str", r.s)) ELSE rc
+MFStep(k, tpl, s, rc) == MFStepM("top", k, tpl, s, rc)
 
-\* the run-time context of the one value that enters (a key that is not a static key)
+\* the run-time contexts of the values that enter by default (a key that is not a static key)
 RT0 == Dict("rt" :> Leaf("int", <<"0">>))
 RT1 == Dict("rt" :> Leaf("int", <<"1">>))
 RTIn == <<RT0, RT1>>
-RECURSIVE RunList(_, _, _, _), RunBranches(_, _, _, _), CatOuts(_, _, _, _), RunSrcF(_, _, _)
+RDefault == [in |-> RTIn, mrg |-> "top"]
+\* a context without its "output" part (the only part MakeFilename writes)
+NoOut(c) == Dict([key \in DOMAIN c.m \ {"output"} |-> c.m[key]])
+RECURSIVE RunList(_, _, _, _, _), RunBranches(_, _, _, _, _), CatOuts(_, _, _, _, _), RunSrcF(_, _, _, _)
 NoData(E, e) == E[e].k \in {"set", "store"}
 \* position of the first data element (the generator) among the children of a srcf node
 RECURSIVE GenPos(_, _, _)
 GenPos(E, ch, j) == IF j > Len(ch) THEN 0 ELSE IF ~NoData(E, ch[j]) THEN j ELSE GenPos(E, ch, j + 1)
 MapSeq(f(_), s) == [j \in 1..Len(s) |-> f(s[j])]
-RunList(E, seen, ch, vals) ==
+RunList(E, R, seen, ch, vals) ==
   IF ch = <<>> THEN vals
   ELSE LET e == Head(ch) IN
-    CASE E[e].k = "ucfs" -> LET F(rc) == UpdRec(rc, seen[e]) IN RunList(E, seen, Tail(ch), MapSeq(F, vals))
-      [] IsMF(E[e].k) -> LET F(rc) == MFStep(E[e].k, E[e].v, seen[e], rc) IN RunList(E, seen, Tail(ch), MapSeq(F, vals))
-      [] E[e].k = "seq" -> RunList(E, seen, Tail(ch), RunList(E, seen, E[e].ch, vals))
-      [] E[e].k = "split" -> RunList(E, seen, Tail(ch), RunBranches(E, seen, E[e].ch, vals))
-      [] OTHER -> RunList(E, seen, Tail(ch), vals)
+    CASE E[e].k = "ucfs" -> LET F(rc) == UpdRec(rc, seen[e]) IN RunList(E, R, seen, Tail(ch), MapSeq(F, vals))
+      [] IsMF(E[e].k) -> LET F(rc) == MFStepM(R.mrg, E[e].k, E[e].v, seen[e], rc) IN RunList(E, R, seen, Tail(ch), MapSeq(F, vals))
+      [] E[e].k = "seq" -> RunList(E, R, seen, Tail(ch), RunList(E, R, seen, E[e].ch, vals))
+      [] E[e].k = "split" -> RunList(E, R, seen, Tail(ch), RunBranches(E, R, seen, E[e].ch, vals))
+      [] OTHER -> RunList(E, R, seen, Tail(ch), vals)
 \* Split.run: Sources and Sequences yield while the block is processed, fill/compute branches
 \* when the flow is exhausted: their results come last (in branch order)
-RunBranches(E, seen, bs, vals) ==
+RunBranches(E, R, seen, bs, vals) ==
   LET IsAcc(b) == E[b].k = "acc"
       NotAcc(b) == ~IsAcc(b)
-      Cat(l) == CatOuts(E, seen, l, vals)
+      Cat(l) == CatOuts(E, R, seen, l, vals)
   IN Cat(SelectSeq(bs, NotAcc)) \o Cat(SelectSeq(bs, IsAcc))
-CatOuts(E, seen, l, vals) ==
+CatOuts(E, R, seen, l, vals) ==
   IF l = <<>> THEN <<>>
   ELSE LET b == Head(l) IN
     (CASE E[b].k = "acc" -> IF vals = <<>> THEN <<Empty>> ELSE <<vals[Len(vals)]>>
-       [] E[b].k = "src" -> RunList(E, seen, E[b].ch, RTIn)
-       [] E[b].k = "srcf" -> RunSrcF(E, seen, b)
-       [] OTHER -> RunList(E, seen, E[b].ch, vals)) \o CatOuts(E, seen, Tail(l), vals)
+       [] E[b].k = "src" -> RunList(E, R, seen, E[b].ch, R.in)
+       [] E[b].k = "srcf" -> RunSrcF(E, R, seen, b)
+       [] OTHER -> RunList(E, R, seen, E[b].ch, vals)) \o CatOuts(E, R, seen, Tail(l), vals)
 \* Source(.., generator, rest..)(): the generator's values run through the rest
-RunSrcF(E, seen, n) ==
+RunSrcF(E, R, seen, n) ==
   LET ch == E[n].ch
       gp == GenPos(E, ch, 1)
       g == ch[gp]
-      vals0 == CASE E[g].k = "src" -> RunList(E, seen, E[g].ch, RTIn)
-                 [] E[g].k = "srcf" -> RunSrcF(E, seen, g)
-                 [] OTHER -> RunBranches(E, seen, E[g].ch, <<>>)
-  IN RunList(E, seen, SubSeq(ch, gp + 1, Len(ch)), vals0)
-RunRoot(E, seen) == LET r == Len(E) IN
-  IF E[r].k = "split" THEN RunBranches(E, seen, E[r].ch, RTIn)
-  ELSE IF E[r].k = "srcf" THEN RunSrcF(E, seen, r)
-  ELSE RunList(E, seen, E[r].ch, RTIn)
+      vals0 == CASE E[g].k = "src" -> RunList(E, R, seen, E[g].ch, R.in)
+                 [] E[g].k = "srcf" -> RunSrcF(E, R, seen, g)
+                 [] OTHER -> RunBranches(E, R, seen, E[g].ch, <<>>)
+  IN RunList(E, R, seen, SubSeq(ch, gp + 1, Len(ch)), vals0)
+RunRootV(E, R, seen) == LET r == Len(E) IN
+  IF E[r].k = "split" THEN RunBranches(E, R, seen, E[r].ch, R.in)
+  ELSE IF E[r].k = "srcf" THEN RunSrcF(E, R, seen, r)
+  ELSE RunList(E, R, seen, E[r].ch, R.in)
+RunRoot(E, seen) == RunRootV(E, RDefault, seen)
+\* the readings of a run: one list of contexts per reading of the merge
+RunReadings(E, in, seen) == {RunRootV(E, [in |-> in, mrg |-> m], seen) : m \in Merges}
 
 =============================================================================
